@@ -76,6 +76,21 @@ def run_both(ctx, drv, h, lines, stream, jobs=12, correspond=True):
     return impl, model
 
 
+def long_string_docs(rng):
+    """documents whose keys / strings are long (1 000 .. 9 000 units) and contain escapes: the un-escape scratch
+    stream grows past every small-buffer threshold while a key or value is still being read from it"""
+    docs = []
+    for n in (300, 1030, 1100, 2050, 4097, 4200, 9000):
+        body = [("raw", 97 + (i % 26)) for i in range(n)]
+        k = rng.randrange(1, n - 1)
+        esc_body = body[:k] + [("esc", rng.choice("ntr\\\"/bf")), ("u", rng.choice([0x41, 0xE9, 0x20AC]), False)] + body[k:]
+        pair_body = body[:k] + [("pair", 0x1F600, True)] + body[k:]
+        docs.append(("obj", [(esc_body, ("num", "1")), ([("raw", 98)], ("str", esc_body))]))
+        docs.append(("arr", [("str", pair_body), ("obj", [(pair_body, ("arr", [("str", esc_body)]))])]))
+        docs.append(("obj", [([("raw", 107)], ("str", body)), (esc_body[:n // 2], ("null",)), (esc_body, ("str", [("esc", "n")]))]))
+    return docs
+
+
 def gen_docs(ctx, n, escapes=True, maxdepth=4):
     rng = ctx.rng
     docs = []
